@@ -376,6 +376,16 @@ namespace vsp
         sp->freeState(o);
     }
 
+    // configurations that only some properties drive
+    inline std::vector<std::string> pinnedSpaceNames()
+    {
+        return {"R2pinned", "SE2pinned"};  // (a Time space pinned to one instant has zero extent and cannot be set up)
+    }
+    inline std::vector<std::string> nonMetricWrapperNames()
+    {
+        return {"WrapDubinsSym", "WrapCompoundDubins"};
+    }
+
     inline ob::RealVectorBounds rvb(std::initializer_list<std::pair<double, double>> l)
     {
         ob::RealVectorBounds b(l.size());
@@ -547,6 +557,59 @@ namespace vsp
             c.headingOnly = true;
             c.tieRule = true;
             c.tol = 1e-6;
+        }
+        else if (name == "R2pinned")
+        {
+            // zero-width interval at a value that is neither 0 nor a power of two (blend formulas round there)
+            auto s = std::make_shared<ob::RealVectorStateSpace>(2);
+            s->setBounds(rvb({{1000, 1000}, {-5, 5}}));
+            c.space = s;
+            c.lattice = product({scalars({1000}), scalars({-5, 0.3, 5})});
+            c.geodesic = true;
+        }
+        else if (name == "TimePinned")
+        {
+            auto s = std::make_shared<ob::TimeStateSpace>();
+            s->setBounds(60, 60);
+            c.space = s;
+            c.lattice = scalars({60});
+            c.geodesic = true;
+        }
+        else if (name == "SE2pinned")
+        {
+            auto s = std::make_shared<ob::SE2StateSpace>();
+            s->setBounds(rvb({{-10, 10}, {37.5, 37.5}}));
+            c.space = s;
+            c.lattice = product({std::vector<Coords>{{-10, 37.5}, {0.3, 37.5}, {10, 37.5}}, angles(0)});
+            c.geodesic = true;
+            c.tieRule = true;
+        }
+        else if (name == "WrapDubinsSym" || name == "WrapCompoundDubins")
+        {
+            // wrappers around spaces that are symmetric but NOT metric: the wrapper must not claim more than the wrapped space does
+            auto d = std::make_shared<ob::DubinsStateSpace>(0.5, true);
+            d->setBounds(rvb({{-2, 2}, {-2, 2}}));
+            std::vector<Coords> poses = product({level == 0 ? std::vector<Coords>{{-2, -2}, {0, 0}, {0.3, 1.7}} : std::vector<Coords>{{-2, -2}, {0, 0}, {0.3, 1.7}, {2, -1}, {0, 0.001}}, angles(level >= 2 ? 1 : 0)});
+            if (name == "WrapDubinsSym")
+            {
+                c.space = std::make_shared<ob::WrapperStateSpace>(d);
+                c.lattice = poses;
+            }
+            else
+            {
+                auto cs = std::make_shared<ob::CompoundStateSpace>();
+                auto r = std::make_shared<ob::RealVectorStateSpace>(1);
+                r->setBounds(0, 1);
+                cs->addSubspace(d, 1.0);
+                cs->addSubspace(r, 0.5);
+                cs->lock();
+                c.space = std::make_shared<ob::WrapperStateSpace>(cs);
+                c.lattice = product({poses, scalars({0, 1})});
+            }
+            c.headingOnly = false;
+            c.tieRule = true;
+            c.tol = 1e-6;
+            c.extentLaw = false;  // the Dubins family exceeds the inherited SE(2) extent (known finding on the Dubins configurations)
         }
         else if (name == "WrapSO2")
         {
